@@ -232,6 +232,17 @@ pub fn gen_issuer_history(r: &mut Rng, tier: Tier) -> IssuerHistory {
             };
             a.strategy = if r.chance(1, 2) { Strategy::All } else { Strategy::Top };
         }
+        // now and then the claims bring their own top-level cnf (visible or hidden) while a holder key is passed: whatever the
+        // instance does with the key then must not reach the next call
+        if r.chance(1, 10) {
+            if let Some(m) = a.claims.as_object_mut() {
+                m.insert("cnf".into(), json!({"jwk": {"kty": "EC", "crv": "P-256", "x": "upstream"}, "kid": "upstream-key"}));
+            }
+            a.strategy = match r.below(3) { 0 => Strategy::None, 1 => Strategy::Custom(vec![]), _ => a.strategy.clone() };
+            if a.holder.is_none() {
+                a.holder = Some(KeyId::HolderEc);
+            }
+        }
         let mut class = "ok";
         match r.below(10) {
             0 => {
@@ -672,7 +683,10 @@ fn judge_issuer_history(ctx: &mut Ctx, h: &IssuerHistory, run: &IssuerRun, resp:
         // the holder key of this call, and only of this call
         let payload = parts.payload().unwrap_or(Value::Null);
         let cnf_expected = a.holder.map(|hk| json!({"jwk": hk.jwk_json().unwrap()}));
-        if payload.get("cnf") != cnf_expected.as_ref() {
+        // (a claim set that brings its own top-level cnf is outside C01's claim sets: what such a call itself returns is judged
+        // by the comparison with a fresh issuer and with the model only)
+        let user_cnf = a.claims.get("cnf").is_some();
+        if !user_cnf && payload.get("cnf") != cnf_expected.as_ref() {
             problems.push("cnf is not exactly the holder key passed to this call (absent when none was passed)".into());
         }
         // as many disclosures as this call's claims and strategy hide
@@ -693,6 +707,7 @@ fn judge_issuer_history(ctx: &mut Ctx, h: &IssuerHistory, run: &IssuerRun, resp:
         // the result stands on its own: select everything, verify
         let expected_claims = with_cnf(&a.claims, a.holder);
         match &run.follow[k] {
+            _ if user_cnf => {}
             Some((Outcome::Ok(_), Some(v))) => match &v.out {
                 Outcome::Ok(c) => {
                     if *c != expected_claims {
@@ -927,6 +942,46 @@ pub fn run(ctx: &mut Ctx, replay: Option<&str>) {
         for i in 0..n {
             let mut r = ctx.rng.fork(0x1_0000_0000 + i as u64);
             holder_hs.push(gen_holder_history(&mut r, ctx.tier));
+        }
+        // every kind of failing call between a key-bound presentation and an unbound one (and a second round with other
+        // arguments): what a failing call leaves half-done must not reach the next one
+        {
+            let fails: Vec<(&str, Box<dyn Fn(&mut PresentArgs)>)> = vec![
+                ("nonce-only", Box::new(|a: &mut PresentArgs| { a.aud = None; a.key = None; })),
+                ("aud-only", Box::new(|a: &mut PresentArgs| { a.nonce = None; a.key = None; })),
+                ("key-only", Box::new(|a: &mut PresentArgs| { a.nonce = None; a.aud = None; })),
+                ("no-key", Box::new(|a: &mut PresentArgs| { a.key = None; })),
+                ("unknown-alg-ES512", Box::new(|a: &mut PresentArgs| { a.alg = Some("ES512".into()); })),
+                ("unknown-alg-empty", Box::new(|a: &mut PresentArgs| { a.alg = Some(String::new()); })),
+                ("unknown-alg-lowercase", Box::new(|a: &mut PresentArgs| { a.alg = Some("es256".into()); })),
+                ("unknown-alg-none", Box::new(|a: &mut PresentArgs| { a.alg = Some("none".into()); })),
+                ("alg-of-another-family", Box::new(|a: &mut PresentArgs| { a.alg = Some("HS256".into()); })),
+                ("alg-of-another-curve", Box::new(|a: &mut PresentArgs| { a.alg = Some("EdDSA".into()); })),
+                ("unknown-claim", Box::new(|a: &mut PresentArgs| { a.sel.insert("no_such_member_zz".into(), json!({"q": true})); })),
+            ];
+            for (fi, (fname, spoil)) in fails.iter().enumerate() {
+                let mut r = ctx.rng.fork(0x4_0000_0000 + fi as u64);
+                let cfg = tree_cfg(ctx.tier);
+                let mut issue = gen_flow(&mut r, &cfg).issue;
+                issue.holder = Some(KeyId::HolderEc);
+                issue.fmt = if fi % 2 == 0 { Fmt::Compact } else { Fmt::Json };
+                let claims = issue.claims.clone();
+                let kb = |r: &mut Rng, sel: Value| PresentArgs { sel: sel.as_object().cloned().unwrap_or_default(), nonce: Some(format!("nonce-{}", r.next() % 1000)), aud: Some("https://verifier.example".into()), key: Some(KeyId::HolderEc), alg: Some("ES256".into()) };
+                let mut calls = vec![];
+                for round in 0..2 {
+                    let sel_good = if round == 0 { select_all(&claims) } else { gen_selection(&mut r, &claims, 3) };
+                    let good = kb(&mut r, sel_good);
+                    let sel_bad = gen_selection(&mut r, &claims, 3);
+                    let mut bad = kb(&mut r, sel_bad);
+                    spoil(&mut bad);
+                    calls.push(HCall { args: good, class: "kb".into() });
+                    calls.push(HCall { args: bad, class: if fname.starts_with("unknown-claim") { "unknown_claim".into() } else if fname.contains("alg") { "kb_bad_alg".into() } else { "inconsistent_kb".into() } });
+                    calls.push(HCall { args: PresentArgs::plain(gen_selection(&mut r, &claims, 3).as_object().cloned().unwrap_or_default()), class: "plain".into() });
+                }
+                let fmt = issue.fmt;
+                holder_hs.push(HolderHistory { issue: Some(issue), input: None, fmt, calls });
+                ctx.count(&format!("holder_history.bound_failing_unbound.{}", fname));
+            }
         }
         // histories whose failing calls fail DEEP inside the claims (a reserved name at the bottom of a chain of objects and
         // arrays, or a bad path after deep paths), again and again, before a call that must succeed: whatever a failing call
